@@ -26,6 +26,8 @@ func (o obsItem) IsErr() bool { return o.Err != "" }
 // collect2 drains an iter.Seq2[T, error] up to horizon callbacks, rendering each item.
 // overflow=true means the iterator was still going at the horizon (treated as non-terminating).
 func collect2[T any](seq iter.Seq2[T, error], render func(T) string, horizon int) (items []obsItem, panicS string, overflow bool) {
+	var vals []T
+	var isRec []bool
 	panicS = catch(func() {
 		seq(func(v T, err error) bool {
 			if err != nil {
@@ -34,9 +36,12 @@ func collect2[T any](seq iter.Seq2[T, error], render func(T) string, horizon int
 					e = "(empty error text)"
 				}
 				items = append(items, obsItem{Err: e})
+				isRec = append(isRec, false)
 			} else {
 				items = append(items, obsItem{Rec: render(v)})
+				isRec = append(isRec, true)
 			}
+			vals = append(vals, v)
 			if len(items) >= horizon {
 				overflow = true
 				return false
@@ -44,6 +49,22 @@ func collect2[T any](seq iter.Seq2[T, error], render func(T) string, horizon int
 			return true
 		})
 	})
+	// A consumer may keep the records it was handed: render every retained record again after the
+	// iteration is over. A reader that reuses a buffer for the next record shows here.
+	if len(vals) <= 4096 {
+		for i, v := range vals {
+			if !isRec[i] {
+				continue
+			}
+			var again string
+			if p := catch(func() { again = render(v) }); p != "" {
+				again = "panic: " + p
+			}
+			if again != items[i].Rec {
+				items[i].Rec = fmt.Sprintf("RECORD CHANGED AFTER IT WAS YIELDED: item %d was %s when yielded and is %s after the iteration", i, items[i].Rec, again)
+			}
+		}
+	}
 	return
 }
 
